@@ -1,6 +1,8 @@
 package rules
 
 import (
+	"go/types"
+	"go/constant"
 	"fmt"
 	"go/token"
 	"strings"
@@ -276,8 +278,35 @@ func runC10(c *Ctx) {
 			if !ok || call.Common().StaticCallee() != d.engMove || reset == nil || !instrDominates(reset.(ssa.Instruction), ins) {
 				continue
 			}
-			for _, ge := range guardsOf(b, reset.Block()) {
-				if phi, ok := ge.cond.(*ssa.Phi); ok && ge.pol && strings.Contains(phi.Comment, "move") {
+			// a boolean variable that is false initially and set true exactly under token == "moves",
+			// required to be true here
+			for _, ge := range edgeGuards(b) {
+				if !ge.pol {
+					continue
+				}
+				if bt, ok := ge.cond.Type().Underlying().(*types.Basic); !ok || bt.Kind() != types.Bool {
+					continue
+				}
+				if _, isPhi := ge.cond.(*ssa.Phi); !isPhi {
+					if u, ok := ge.cond.(*ssa.UnOp); !ok || u.Op != token.MUL {
+						continue
+					}
+				}
+				nTrue, nFalse, other, kw := 0, 0, 0, true
+				for _, df := range defSites(ge.cond, map[ssa.Value]bool{}) {
+					cst, ok := df.val.(*ssa.Const)
+					if !ok || cst.Value == nil || cst.Value.Kind() != constant.Bool {
+						other++
+						continue
+					}
+					if constant.BoolVal(cst.Value) {
+						nTrue++
+						kw = kw && guardedByKeyword(df.blk, "moves")
+					} else {
+						nFalse++
+					}
+				}
+				if other == 0 && nTrue > 0 && nFalse > 0 && kw {
 					flagOK = true
 				}
 			}
@@ -309,23 +338,41 @@ func runC10(c *Ctx) {
 				continue
 			}
 			skipped := false
-			cur := b
-			for cur != nil {
-				dd := cur.Idom()
-				if dd == nil || !inArm(dd) {
-					break
+			for _, ge := range edgeGuards(b) {
+				bo, ok := ge.cond.(*ssa.BinOp)
+				if !ok || !(bo.Op == token.EQL || bo.Op == token.NEQ) {
+					continue
 				}
-				if ifi, ok := dd.Instrs[len(dd.Instrs)-1].(*ssa.If); ok {
-					if bo, ok := ifi.Cond.(*ssa.BinOp); ok && (bo.Op == token.EQL || bo.Op == token.NEQ) && bo.X == arg {
-						if cst, ok := bo.Y.(*ssa.Const); ok && cst.Value != nil && cst.Value.ExactString() == `""` {
-							onFalse := onEdge(dd, 1, cur)
-							if (bo.Op == token.EQL && onFalse) || (bo.Op == token.NEQ && !onFalse) {
+				var other ssa.Value
+				switch {
+				case bo.X == arg:
+					other = bo.Y
+				case bo.Y == arg:
+					other = bo.X
+				default:
+					continue
+				}
+				if cst, ok := other.(*ssa.Const); ok && cst.Value != nil && cst.Value.Kind() == constant.String && constant.StringVal(cst.Value) == "" {
+					if (bo.Op == token.EQL && !ge.pol) || (bo.Op == token.NEQ && ge.pol) {
+						skipped = true
+					}
+				}
+			}
+			// len(token) > 0 / != 0 style tests
+			for _, ge := range edgeGuards(b) {
+				bo, ok := ge.cond.(*ssa.BinOp)
+				if !ok {
+					continue
+				}
+				if call, ok := bo.X.(*ssa.Call); ok {
+					if bi, ok := call.Call.Value.(*ssa.Builtin); ok && bi.Name() == "len" && call.Call.Args[0] == arg {
+						if k, ok := constInt(bo.Y); ok && k == 0 {
+							if (bo.Op == token.GTR && ge.pol) || (bo.Op == token.NEQ && ge.pol) || (bo.Op == token.EQL && !ge.pol) {
 								skipped = true
 							}
 						}
 					}
 				}
-				cur = dd
 			}
 			r.Check(skipped, "R10-tokens", cons, c.pos(ins.Pos()), "", "a token of strings.Split(..) is handed to Engine.Move without skipping empty tokens: Split yields \"\" for a verbatim repeat of the previous command (empty suffix) and for doubled spaces; Move(\"\") fails and the driver stops")
 		}
